@@ -10,7 +10,8 @@ RULE = ("operation histories of length <= 40 from the empty list: append, insert
         "is the sequence oracle (via the structured semantics); compared with the Lean model as well. "
         "Concatenation operands from every source (variable, group, container slot, record field, identity / builder / getter "
         "function results) followed by fresh allocations by every route: the operands stay what they were. "
-        "Non-trivial: the history has an insert or remove at an interior position.")
+        "Non-trivial: the history has an insert or remove at an interior position."
+        ' Index-boundary family (negative fractions, minus zero, NaN, infinity, huge) for read, write, insert-at, remove-at.')
 ASSUMPTIONS = []
 default_compare = lambda m, i: C.compare_run(m, i)
 
@@ -94,4 +95,10 @@ def cases(rng, tier, stats):
     op = operand_provenance_family(rng)
     out += op
     stats["operand_provenance_family"] = len(op)
+    # positions on and next to every boundary (negative fractions, minus zero, not-a-number, infinity, huge) for read, write,
+    # insert-at and remove-at: an invalid position is an error that leaves the list as it was
+    from props.C06 import index_boundary_family
+    ib = index_boundary_family(tier)
+    out += ib
+    stats["index_boundary"] = len(ib)
     return out
